@@ -144,19 +144,30 @@ def reaches_cycle(table, start):
 
 
 # ---------------------------------------------------------------- the hypothesis of C14_alias_eq_definition
+_MENTIONS = {}      # id(cfg) -> (cfg, prepared Config, {definition text: mentions})
+
+
 def impl_mentions(defn, cfg):
     """Definitions the text `defn` refers to: every node (any depth) of the definition, read by the
     implementation's own parser the way resolve() reads it, whose name is a key with a non-empty value."""
     from emmet.config import Config
     from emmet.abbreviation import parse as abbreviation
-    config = Config(copy.deepcopy(cfg))
-    if config.get('text'):
-        config.user_config['text'] = None
+    ent = _MENTIONS.get(id(cfg))
+    if ent is None or ent[0] is not cfg:
+        config = Config(copy.deepcopy(cfg))
+        if config.get('text'):
+            config.user_config['text'] = None
+        if len(_MENTIONS) > 64:
+            _MENTIONS.clear()
+        ent = _MENTIONS[id(cfg)] = (cfg, config, {})
+    _, config, memo = ent
+    if defn in memo:
+        return memo[defn]
+    out = []
     try:
         tree = abbreviation(defn, config)
     except Exception:  # noqa: a definition that does not parse mentions nothing (expansion fails anyway)
-        return []
-    out = []
+        tree = None
 
     def walk(n):
         s = config.snippets.get(n.name) if n.name else None
@@ -164,8 +175,10 @@ def impl_mentions(defn, cfg):
             out.append(s)
         for c in n.children:
             walk(c)
-    for c in tree.children:
-        walk(c)
+    if tree is not None:
+        for c in tree.children:
+            walk(c)
+    memo[defn] = out
     return out
 
 
@@ -240,14 +253,17 @@ def acyclicity_tie(ctx, tables):
     if snip is None:
         return
     wires, meta = [], []
+    n_tab = 0
     for cfg, table in tables:
         try:
             ec = enc_config(cfg)
         except NotModelled:
             ctx.cover('C14:tie-not-modelled')
             continue
-        wires.append([2] + ec)
-        meta.append(('table', cfg, table, None))
+        n_tab += 1
+        if n_tab <= 300 or 'snippets' not in cfg:      # the whole-table predicate walks all built-in snippets as well: a sample
+            wires.append([2] + ec)
+            meta.append(('table', cfg, table, None))
         for k, d in table.items():
             wires.append([1] + ec + enc_str(d))
             meta.append(('from', cfg, table, k))
